@@ -49,11 +49,13 @@ Ancestors(n) == {SubSeq(n, 1, i - 1) : i \in {k \in DOMAIN n : n[k] = Sep}}
 
 ---------------------------------------------------------------------------
 (* C17: LIST / LSUB.  listed: set of [name, nosel, haschildren, hasnochildren] *)
-ListExpected(tree, ref, pat, subscribedOnly) ==
-    {t \in tree : MatchesName(ref, pat, t.name) /\ (subscribedOnly => t.sub)}
+(* pats: the set of patterns of the command (one for LIST/LSUB of RFC 3501,
+   several for the multi-pattern LIST of RFC 5258: the union is listed) *)
+ListExpected(tree, ref, pats, subscribedOnly) ==
+    {t \in tree : (\E pat \in pats : MatchesName(ref, pat, t.name)) /\ (subscribedOnly => t.sub)}
 
-ListBad(tree, ref, pat, lsub, listed, dup) ==
-    LET want == ListExpected(tree, ref, pat, lsub)
+ListBad(tree, ref, pats, lsub, listed, dup) ==
+    LET want == ListExpected(tree, ref, pats, lsub)
         wantNames == {t.name : t \in want}
         gotNames == {Canon(l.name) : l \in listed}
     IN
